@@ -739,6 +739,22 @@ def c10_r3(ctx):
                 asked.add(st.targets[0].slice.value)
         ctx.ob(wv, reads <= asked, "word_values asks the analyzer for every token attribute it reads",
                detail="reads %s, requests %s" % (sorted(reads), sorted(asked)))
+        # every format scales the weight it emits by its field_boost (sibling agreement: (text, freq, WEIGHT, value) tuples)
+        wal = norm.aliases(wv.node)
+        tuples = [t_ for t_ in ast.walk(wv.node) if isinstance(t_, ast.Tuple) and len(t_.elts) == 4 and isinstance(t_.ctx, ast.Load)]
+        emitted = []
+        for n in ast.walk(wv.node):
+            if isinstance(n, ast.Yield) and n.value in tuples:
+                emitted.append(n.value)
+            if isinstance(n, (ast.GeneratorExp, ast.ListComp)) and n.elt in tuples:
+                emitted.append(n.elt)
+        for t_ in emitted:
+            wexpr = norm.substitute(norm.inline_defs(t_.elts[2], wv.node), wal)
+            ctx.ob(wv, "self.field_boost" in norm.canon(wexpr), "the emitted posting weight is scaled by the format's field_boost",
+                   detail="weight = %s: this format ignores the field boost that its sibling formats multiply in" % norm.canon(wexpr),
+                   loc=ctx.nodeloc(wv, t_))
+        if not emitted:
+            raise AnalysisError("%s: no (text, freq, weight, value) tuple found" % wv.short)
 
 
 @rule("C10", "R6", "K10", "self-calls in the posting formats and codecs resolve",
